@@ -214,7 +214,7 @@ def main():
             old = ledger.get(r['name']) or {}
             props = sorted(set(old.get('props', [])) | {prop})
             if r['verdict'] == 'unsat':
-                entries[r['name']] = dict(verdict='unsat', hash=r['hash'], solver=r.get('solver'), time=round(r['time'], 2), props=props)
+                entries[r['name']] = dict(verdict='unsat', hash=r['hash'], solver=r.get('solver'), time=round(r.get('win_time', min(r['time'], 30)), 2), props=props)
             elif old.get('verdict') == 'unsat' and old.get('hash') == r['hash']:
                 pass   # solver flake: keep the proved record
             else:
